@@ -10,7 +10,8 @@ from vlib.facts import kids, strip, walk, is_call, call_args, call_object, calle
 from vlib.cfg import write_target
 from vlib.work import AnalysisBroken, gen_dir
 
-UNITS = ["src/occa/internal/core/kernel.cpp", "src/core/kernel.cpp", "src/occa/internal/lang/parser.cpp",
+UNITS = ["src/occa/internal/lang/type/typedef.cpp", "src/occa/internal/lang/type/vartype.cpp", "src/occa/internal/lang/variable.cpp",
+         "src/occa/internal/lang/type/struct.cpp", "src/occa/internal/lang/type/union.cpp", "src/occa/internal/core/kernel.cpp", "src/core/kernel.cpp", "src/occa/internal/lang/parser.cpp",
          "src/occa/internal/lang/kernelMetadata.cpp", "src/occa/internal/modes/serial/device.cpp", "src/occa/internal/modes/serial/kernel.cpp",
          "src/occa/internal/modes/openmp/device.cpp"]
 
@@ -25,6 +26,7 @@ def run(ctx):
     R.rule("C10-R2", "setupRun check inventory and ordering", floor=6)
     R.rule("C10-R3", "fresh and cached binaries get their metadata assigned", floor=4)
     R.rule("C10-R4", "metadata built per non-implicit argument from pointer-ness and dtype", floor=3)
+    R.rule("C10-R5", "declared dtype derivation: wrappers delegate to vartype_t::dtype (qualifiers and array extents applied), never to the bare type", floor=5)
 
     # ---- R1 --------------------------------------------------------------------------
     kr = [f for f in prog.fns("occa::kernel::run") if not f.d["params"]]
@@ -152,6 +154,41 @@ def run(ctx):
         R.ob("C10-R4", ok, sm.q, "only implicit arguments are skipped", l.site(conts[0]) if conts else l.relfile, "the single skip is guarded by hasAttribute(\"implicitArg\")")
     if not found:
         raise AnalysisBroken("setSourceMetadata: argMetadata_t construction not found")
+
+    # ---- R5 --------------------------------------------------------------------------
+    L = "occa::lang::"
+    vd = prog.fn(L + "vartype_t::dtype")
+    txt = noid(render(vd.body, False))
+    ok = "long_" in txt and "longlong_" in txt and "tuple" in txt and "this->arrays" in txt
+    R.ob("C10-R5", ok, vd.q, "vartype_t::dtype applies long/long long and array extents", "%s:%d" % (vd.relfile, vd.d["line"]), "the one place where qualifiers and extents enter the element dtype")
+    for q, member, want in ((L + "variable_t::dtype", "vartype", L + "vartype_t::dtype"), (L + "typedef_t::dtype", "baseType", L + "vartype_t::dtype")):
+        f = prog.fn(q)
+        rets = [r for r in f.walk() if r["k"] == "ReturnStmt" and kids(r)]
+        good = bool(rets)
+        for r in rets:
+            e = strip(kids(r)[0])
+            while e is not None and e["k"] in ("CXXConstructExpr",) and len(kids(e)) == 1:
+                e = strip(kids(e)[0])
+            good &= e is not None and e["k"] == "CXXMemberCallExpr" and callee(e) == want and noid(render(call_object(e), False)) == "this->" + member
+        R.ob("C10-R5", good, q, "delegates to %s.dtype()" % member, "%s:%d" % (f.relfile, f.d["line"]),
+             "every return is %s.dtype()" % member if good else
+             "the wrapped declaration's dtype is not taken through vartype_t::dtype(): `long` qualifiers and array extents of the underlying type are dropped from the argument metadata, so validation compares against the wrong element type")
+    # nobody but vartype_t::dtype reads the dtype of a bare `vartype.type`
+    offenders = []
+    for f in prog.funcs.values():
+        if f.d.get("tmpl") == "inst" or not f.q.startswith(L) or f.q == vd.q:
+            continue
+        for c in f.walk():
+            if c["k"] == "CXXMemberCallExpr" and callee(c).endswith("type_t::dtype") and call_object(c) is not None:
+                o = strip(call_object(c))
+                if o["k"] == "MemberExpr" and o.get("n") == L + "vartype_t::type":
+                    offenders.append((f, c))
+    R.ob("C10-R5", not offenders, L + "vartype_t::type", "who-calls type->dtype() on a bare vartype.type", offenders[0][0].site(offenders[0][1]) if offenders else "",
+         "only vartype_t::dtype does" if not offenders else "%s bypasses vartype_t::dtype()" % offenders[0][0].q)
+    for q in (L + "struct_t::dtype", L + "union_t::dtype"):
+        f = prog.fn(q)
+        ok = any(c["k"] == "CXXMemberCallExpr" and callee(c) == L + "variable_t::dtype" for c in f.walk())
+        R.ob("C10-R5", ok, q, "field dtypes through variable_t::dtype()", "%s:%d" % (f.relfile, f.d["line"]), "nested fields use the same chain")
 
 
 META = {
